@@ -39,6 +39,7 @@ class SCheck(Check):
     K = {"quick": 4, "thorough": 16}
     log = "sandbox"
     compare_runs = False
+    ustep_rate = 0.12  # share of schedule plans that also preempt in user space (single-stepping); see gen.sched_plan
 
     def gen_case(self, r, idx, tier):
         raise NotImplementedError
@@ -46,7 +47,7 @@ class SCheck(Check):
     def gen_plans(self, r, case, k):
         plans = []
         for j in range(k):
-            plans.append({"seed": r.randrange(1 << 48), "sched": gen.sched_plan(r, est=case.get("est_steps", 300))})
+            plans.append({"seed": r.randrange(1 << 48), "sched": gen.sched_plan(r, est=case.get("est_steps", 300), ustep=self.ustep_rate)})
         return plans
 
     def evaluate(self, res, verdict, case, step_i, t0, plan):
